@@ -431,7 +431,9 @@ impl Sweep<'_> {
 					// index the store cannot read. Attributed only when the process-crash image of
 					// the very same point recovers, the failing image is a power-loss one, and the
 					// failure comes out of the B+tree code.
-					if process_ok && crate::recovery::index_torn_by_power_loss(&plan.opts, *cm == CrashModel::PowerLoss, &v) {
+					if (process_ok && crate::recovery::index_torn_by_power_loss(&plan.opts, *cm == CrashModel::PowerLoss, &v))
+						|| (*cm == CrashModel::Process && crate::recovery::index_update_interrupted(&plan.opts, ops, n, &v))
+					{
 						v.explained = Some("version_index_torn_by_power_loss".into());
 					}
 					if v.class == "not_prefix" && self.focus == Focus::C02 && acked_write_missing(&r.contents, model, lo, hi) {
